@@ -245,6 +245,47 @@ def mutation_rules(chk, hs):
                 ok = h.fn.args.kwarg is not None or all(k in names for k in kws)
                 chk.require("C05.R19", f"{h.mi.rel}:{h.fn.lineno}", ok, f"{h.name} accepts {kws} of {o}", h.name, f"{h.name} rejects optional arguments of {o}",
                             "torch.div(q, 2., rounding_mode='floor') (even rounding_mode=None) / q.copy_(q2, non_blocking=True): TypeError, the float program is valid")
+    # ---- (e) mutating operations that have no handler: the dispatch of the quantized tensor classes hands every op without a handler to qfallback,
+    #      which runs it on dequantized temporaries - an in-place op (relu_, mul_, masked_fill_, zero_, out=...) then modifies a temporary and torch
+    #      returns the untouched operand
+    for cname in ("QBytesTensor", "QBitsTensor"):
+        ci_ = repo.cls(cname)
+        disp = ci_.own("__torch_dispatch__") if ci_ is not None else None
+        if disp is None:
+            continue
+        falls_back = any(isinstance(x, ast.Call) and U(x.func) == "qfallback" for x in ast.walk(disp))
+        tells_mutation = any(isinstance(x, ast.Attribute) and x.attr in ("is_mutable", "is_write", "alias_info") for x in ast.walk(disp)) or \
+            any(isinstance(x, ast.Call) and isinstance(x.func, ast.Attribute) and x.func.attr == "endswith" and x.args and isinstance(x.args[0], ast.Constant) and x.args[0].value == "_" for x in ast.walk(disp))
+        chk.require("C05.R18", f"{ci_.mod.rel}:{disp.lineno}", not falls_back or tells_mutation, f"{cname}.__torch_dispatch__: an op that writes into its operand is not answered by the out-of-place fallback (fallback: {falls_back}, mutation told apart: {tells_mutation})",
+                    f"{cname}.__torch_dispatch__", "in-place op without a handler runs on a temporary",
+                    "nn.ReLU(inplace=True) after a module with quantized activations (or q.relu_(), q.mul_(c), q += c, q.masked_fill_(m, 0), q.zero_()): the operand comes back unchanged, no error - Sequential(QLinear, ReLU(inplace=True), QLinear) is off by 0.38 where inplace=False is off by 0.005")
+    # ---- (f) views of a per-axis tensor: the handlers of the aliasing ops return `op(x.dequantize(), ...)` - a view of a temporary - so a write through the
+    #      view (q[0:2].copy_(v), q[0] = row, q.t().copy_(y)) never reaches q
+    from ..hand import MOVE_OPS
+    ALIASING = {"aten.select", "aten.slice", "aten.transpose", "aten.view", "aten.unsqueeze", "aten.permute", "aten.expand", "aten.t", "aten.squeeze", "aten._unsafe_view", "aten.narrow", "aten.unbind", "aten.split"}
+    lost = []
+    for h in qb:
+        if not (set(h.ops) & ALIASING):
+            continue
+        x_ = positional_params(h.fn)[1]
+        for p_ in paths_of(h.fn):
+            e_ = p_.end[1]
+            if p_.end[0] == "return" and isinstance(e_, ast.Call) and U(e_.func) == positional_params(h.fn)[0] and e_.args and U(e_.args[0]) == f"{x_}.dequantize()":
+                lost.append((h, p_.end[2]))
+                break
+    for h, line_ in lost[:1]:
+        chk.bad("C05.R18", f"{h.mi.rel}:{line_}", h.name, "view of a per-axis tensor is a view of a temporary", f"NOT: {len(lost)} handler(s) of aliasing ops ({sorted({o for h_, _ in lost for o in h_.ops & ALIASING if True} if False else {o for h_, _ in lost for o in set(h_.ops) & ALIASING})[:6]}) return the op applied to `{positional_params(h.fn)[1]}.dequantize()` for per-axis operands: the result does not alias the operand",
+                "q[0:2].copy_(x), q[0] = row, q.select(-1, 1).copy_(col), q.transpose(0, 1).copy_(y) or q.view(-1).copy_(z) on a per-axis QBytesTensor: q.dequantize() is bit-identical before and after, no error (the same program on a per-tensor tensor writes the codes)")
+    # positional overloads: aten.to reaches the dispatch undecomposed in inference mode, as to.dtype(self, dtype, non_blocking, copy, memory_format),
+    # to.device(self, device, dtype, ...) or to.other(self, other, ...): a handler registered for it takes the extra positional arguments
+    for table in ("qbytes", "qbits"):
+        for h in hs[table]:
+            if "aten.to" in h.ops:
+                m += 1
+                ok = h.fn.args.vararg is not None
+                chk.require("C05.R19", f"{h.mi.rel}:{h.fn.lineno}", ok, f"{h.name} (registered for aten.to) accepts the positional arguments of the to.dtype / to.device / to.other overloads", h.name,
+                            f"{h.name} rejects the positional overloads of aten.to",
+                            "under torch.inference_mode(): q.to('cpu', torch.float16), q.to(torch.float16, non_blocking=True), q.to(other) or model.to('cpu', torch.float16) on a frozen model: TypeError `_to_copy() takes from 2 to 3 positional arguments`")
     chk.floor("C05.R19", m, 2, "handlers of ops with optional arguments")
     # ---- overloads with another meaning
     v = 0
